@@ -1,10 +1,12 @@
 //! C15 — world-stopping operations see other threads only while they are stopped.
 //! The thread programs of `threads.rs` with a full collection forced every 40-1000 allocations (each
-//! one stops the world while 1-8 workers run) and global definitions / assignments by the main
-//! thread.  The property's own hook (a per-thread "being scanned" flag asserted on every dispatch)
-//! is not implemented; the check observes the consequences a violation has: a worker's private
-//! object graph or accumulator changed, a stale heap handle, a free-list accounting error, a
-//! global assignment not visible to a worker that synchronised with the assigning thread, a crash.
+//! one stops the world while 1-8 workers run) and global definitions / assignments by the main thread
+//! and by an updater thread.  Oracles: the property's own hook - a per-thread "being scanned" flag, set
+//! when a stopper first uses the thread's published pointer and cleared before it resumes the threads,
+//! checked at every instruction dispatch - must never fire; delay points in the handshake (generated
+//! schedule) widen its windows; and the consequences a violation has: a worker's private object graph
+//! or accumulator changed, a stale heap handle, a global assignment not visible to a worker that
+//! synchronised with the assigning thread, a crash, a hang.
 
 use crate::checks::threads;
 use crate::runner::*;
@@ -15,10 +17,14 @@ pub fn run(ctx: &Ctx, replay: Option<&str>) -> i32 {
          strings, each keeping a private depth-3 graph of boxes, vectors and lists alive; a full collection is forced every 40, \
          200 or 1000 allocations (on whichever thread allocates), so the world is stopped hundreds of times while workers run, \
          block on channels and exit; the main thread assigns a global before each of 0-5 rounds of sends and optionally defines \
-         new globals between them. Checked: every worker's final accumulator and graph checksum, the value of the global a worker \
-         reads after receiving the main thread's i-th value (>= i), the heap hooks (stale handle accesses, accounting), no \
-         crash, completion. Non-trivial = >=2 workers and >=100 iterations.",
+         new globals between them; optionally an updater thread assigns another global 50 / 300 times back to back at the same \
+         time (two threads requesting world stops) and the main thread spawns and joins 10 / 40 short-lived threads; two thirds \
+         of the cases carry a delay schedule (a subset of the 8 delay points of the stop / resume / safepoint / registration \
+         handshake, firing at every 1st-101st visit for 0-200 us). Checked: the 'being scanned' hook never sees an instruction \
+         dispatched by a thread whose state a stopper is using, every worker's final accumulator and graph checksum, the value \
+         of the global a worker reads after receiving the main thread's i-th value (>= i), the stale-handle hook, no crash, \
+         completion. Non-trivial = >=2 workers, >=100 iterations and at least one world stop during the case.",
     );
-    ctx.assume("the 'being scanned' flag hook named by the property is not implemented: only the observable consequences of a thread running while its state is inspected are checked; the OS scheduler chooses the interleavings (not owned by the harness)");
-    threads::run(ctx, replay, "c15", true, 48, 3000)
+    ctx.assume("the OS scheduler chooses the interleavings (not owned by the harness); the delay points only widen the windows. The case child runs on 4 cpus");
+    threads::run(ctx, replay, "c15", true, 400, 20000)
 }
